@@ -304,10 +304,11 @@ def run_one(tape, opts):
     cur = None
     for e in world.events:
         if e.method == "startTest":
-            cur = {"id": e.test_id, "calls": []}
+            cur = {"id": e.test_id, "calls": [], "t0": (e.data or {}).get("time")}
         elif e.method in OUTCOMES and cur is not None:
             cur["calls"].append(e)
         elif e.method == "stopTest" and cur is not None:
+            cur["t1"] = (e.data or {}).get("time")
             brackets.append(cur)
             cur = None
     # "... or as incomplete when the run stops": the wrapped result hears of every test inside its run
@@ -332,6 +333,15 @@ def run_one(tape, opts):
                     data = b"".join(chunks)
                     if data and (n not in det or det[n]["bytes"] != data):
                         out.violate("report-mismatch", "StreamToExtendedDecorator:detail-bytes", f"{n}: {det.get(n)} want {data!r}")
+                # "first and last timestamps": the wrapped result's clock at startTest / stopTest is this test's
+                # own first / last timestamp - not one left over from the test reported before it
+                want0 = None if r["first"] is None else vclock.explicit_time(r["first"])
+                if b["t0"] != want0:
+                    out.violate("report-mismatch", "StreamToExtendedDecorator:start-time" + (":stale-clock" if r["first"] is None else ""),
+                                f"{r['id']}: started at {b['t0']}, its first timestamp is {r['first']}; stream {ext_stream}")
+                if r["last"] is not None and b.get("t1") != vclock.explicit_time(r["last"]):
+                    out.violate("report-mismatch", "StreamToExtendedDecorator:stop-time",
+                                f"{r['id']}: stopped at {b.get('t1')}, its last timestamp is {r['last']}")
                 if b["calls"][0].data and b["calls"][0].data.get("tags") is not None and r["tags"] - {""} != set(b["calls"][0].data["tags"]):
                     out.violate("report-mismatch", "StreamToExtendedDecorator:tags", f"{r['id']}: target saw {sorted(b['calls'][0].data['tags'])} want {sorted(r['tags'])}")
             break
